@@ -282,7 +282,7 @@ def rule_sortedemit(ctx, prop: str) -> RuleResult:
                 import copy
 
                 ktxt = ast.unparse(key.body)
-                key_ok = bool(emitted) and all(ast.unparse(_S().visit(copy.deepcopy(e_))) in ktxt for e_ in emitted)
+                key_ok = bool(emitted) and all(ast.unparse(_S().visit(ast.parse(ast.unparse(e_), mode="eval").body)) in ktxt for e_ in emitted)
             res.instances += 1
             res.nontrivial += 1
             ok2 = rejects_dup or key_ok
